@@ -27,6 +27,7 @@ func main() {
 	maxSteps := flag.Int("maxsteps", 20000, "scheduler step budget per execution")
 	quiet := flag.Bool("quiet", false, "do not print E lines (observations only)")
 	progOnly := flag.Bool("progs", false, "print generated programs only")
+	diff := flag.String("diff", "", "container differential to generate: fifo | pq | manager | config | codec")
 	start := flag.Int("start", 0, "first execution index")
 	shard := flag.Int("shard", 0, "shard index")
 	shards := flag.Int("shards", 1, "number of shards")
@@ -45,6 +46,14 @@ func main() {
 	}
 	defer w.Flush()
 
+	if *diff != "" {
+		if !runDiff(*diff, *n, *seed, w) {
+			fmt.Fprintln(os.Stderr, "unknown diff", *diff)
+			w.Flush()
+			os.Exit(2)
+		}
+		return
+	}
 	if *replay != "" {
 		b, err := os.ReadFile(*replay)
 		if err != nil {
